@@ -17,6 +17,9 @@ CONSTANTS
   MaxSteps = 1
   StepCap <- Cap1
   EmitDyn = TRUE
+  MaxHist = 0
+  MaxReorders = 0
+  UnitCfgs <- UnitsA
   Times <- TimesA
   Tol <- TolA
 INVARIANT TypeOK
@@ -28,6 +31,7 @@ INVARIANT SafeStepIsMaximal
 INVARIANT SafeStepPositive
 INVARIANT BoundDominatesGrid
 INVARIANT GeneratorIsRhs
+INVARIANT UnitTextRoundTrip
 INVARIANT Emit
 PROPERTY ConservationAction
 CHECK_DEADLOCK FALSE
